@@ -1,1 +1,951 @@
-//! C19 - not built yet
+//! C19 - layout-consistency validation is sound.
+//!
+//! Reference-model monitor. Every case is a small program that uses generated struct types as element
+//! types of `StructuredBuffer<S>` / `RWStructuredBuffer<S>` or in `Load<S>` / `Store` of byte address
+//! buffers and buffer addresses. The real `rssl::compile` runs with `validate_layout_consistency(true)`
+//! and the monitor compares its verdict with `oracle::c19_reflayout` (HLSL structured-buffer packing
+//! and Metal struct layout, written from the language rules):
+//!
+//! * compile succeeds but the two reference layouts of a used struct differ in total size or in the
+//!   offset of any leaf field                                   -> `accepted-inconsistent-layout:<cause>`
+//! * compile rejects with the layout diagnostic and the sizes in the message are not the reference's
+//!   sizes of the struct the message points at                          -> `wrong-reported-size:<cause>`
+//!
+//! `<cause>` attributes an established violation to a rule the checker is known to get wrong (see
+//! `cause_of_*`); anything that is not explained by one of those is `...:unexplained`. The verdict
+//! itself never depends on the attribution.
+
+use crate::json::Json;
+// The reference model lives in src/oracle/c19_reflayout.rs; it is included here by path so that the check does not
+// depend on a line in src/oracle/mod.rs.
+#[path = "../oracle/c19_reflayout.rs"]
+mod reflayout;
+use reflayout::{compare, layout_of, Base, Decls, Lay, Member, Relax, Rules, Scalar, StructDef, Truth, EXACT, SCALARS};
+use crate::report::{Ctx, Report, Tier};
+use crate::rng::{hash_str, Rng};
+use crate::rs::{self, Mode, Opts, Outcome, Tgt};
+use crate::CheckDef;
+
+pub fn def() -> CheckDef {
+    CheckDef {
+        id: "C19",
+        salt: 0xC19,
+        rule: "family 'flat': every struct with 1..3 members over {half,int,uint,float,double} x {scalar,2,3,4-vector} (8420 structs; thorough: all of \
+               them with each of the 8 uses; quick: the slice struct_index % 10 == seed % 10, one use each). family 'random': structs to nesting \
+               depth 3 with 1-6 members over the same 20 types plus enums, nested structs (new or reused) and 1- or 2-dimensional arrays of length \
+               1-4, drawn from 6 member-type profiles and steered with the reference (40% unsteered, 30% retried until the two reference layouts \
+               agree, 15% until same size but different offsets, 15% until different size); 1 use (85%) or 2 uses (15%, second element type = any \
+               generated struct). uses: StructuredBuffer<S>, RWStructuredBuffer<S>, (RW)ByteAddressBuffer.Load<S>, RWByteAddressBuffer.Store, \
+               (RW)BufferAddress.Load<S>, RWBufferAddress.Store. Each program is compiled once with validate_layout_consistency(true), \
+               no-pipeline mode, target DirectX (random family: 10% each Vulkan / Vulkan+buffer_address / Metal when the struct has no double). \
+               evaluations = compile() executions observed; distinct_nontrivial = distinct (struct definitions, uses) by content hash for which \
+               the validator gave a verdict (accepted, or rejected with the layout diagnostic) that the monitor compared with the reference",
+        assumptions: &[
+            "HLSL side: dxc structured-buffer packing with -enable-16bit-types (half = 2 bytes), as the rssl HLSL backend documents",
+            "Metal side: the struct is laid out as emitted; the monitor checks on emitted MSL (1 case in 8) that members keep their plain vector types (no packed_*), \
+             an unscoped enum is a 4 byte int, and double (absent from Metal) is laid out by the same scalar / power-of-two vector rule",
+            "field = leaf scalar / vector / enum member, array elements and nested struct members expanded; a 3-vector's own size (12 vs 16) is not an offset",
+            "the diagnostic's location (line) identifies which used struct the reported sizes belong to; reported alignments are recorded but not judged",
+        ],
+        min_distinct: (15_000, 200_000),
+        deadline_s: (45.0, 540.0),
+        run,
+        replay,
+    }
+}
+
+// ------------------------------------------------------------------------------------------------
+// Cases
+// ------------------------------------------------------------------------------------------------
+
+#[derive(Clone, Copy, PartialEq, Eq, Debug)]
+pub enum UseKind {
+    Structured,
+    RwStructured,
+    ByteLoad,
+    RwByteLoad,
+    RwByteStore,
+    AddrLoad,
+    RwAddrLoad,
+    RwAddrStore,
+}
+
+const USE_KINDS: [UseKind; 8] = [
+    UseKind::Structured,
+    UseKind::RwStructured,
+    UseKind::ByteLoad,
+    UseKind::RwByteLoad,
+    UseKind::RwByteStore,
+    UseKind::AddrLoad,
+    UseKind::RwAddrLoad,
+    UseKind::RwAddrStore,
+];
+
+impl UseKind {
+    fn name(self) -> &'static str {
+        match self {
+            UseKind::Structured => "StructuredBuffer<S>",
+            UseKind::RwStructured => "RWStructuredBuffer<S>",
+            UseKind::ByteLoad => "ByteAddressBuffer.Load<S>",
+            UseKind::RwByteLoad => "RWByteAddressBuffer.Load<S>",
+            UseKind::RwByteStore => "RWByteAddressBuffer.Store(S)",
+            UseKind::AddrLoad => "BufferAddress.Load<S>",
+            UseKind::RwAddrLoad => "RWBufferAddress.Load<S>",
+            UseKind::RwAddrStore => "RWBufferAddress.Store(S)",
+        }
+    }
+    fn from_name(s: &str) -> Option<UseKind> {
+        USE_KINDS.iter().copied().find(|k| k.name() == s)
+    }
+}
+
+#[derive(Clone, Debug)]
+pub struct Case {
+    pub kind: String,
+    pub decls: Decls,
+    /// (how, element struct)
+    pub uses: Vec<(UseKind, String)>,
+    pub target: Tgt,
+}
+
+/// The program text, and for every line that a layout diagnostic can point at the struct it stands for
+fn render(case: &Case) -> (String, Vec<(u32, String)>) {
+    let mut text = String::new();
+    let mut lines: Vec<(u32, String)> = Vec::new();
+    let mut line = 1u32;
+    for e in &case.decls.enums {
+        text.push_str(&format!("enum {} {{ {}_A, {}_B, {}_C }};\n", e, e, e, e));
+        line += 1;
+    }
+    for s in &case.decls.structs {
+        text.push_str(&format!("struct {} {{", s.name));
+        for m in &s.members {
+            text.push_str(&format!(" {} {}", m.base.type_name(), m.name));
+            for d in &m.dims {
+                text.push_str(&format!("[{}]", d));
+            }
+            text.push(';');
+        }
+        text.push_str(" };\n");
+        // Load<T> / Store diagnostics point at the definition of T
+        lines.push((line, s.name.clone()));
+        line += 1;
+    }
+    let mut body = String::new();
+    for (i, (kind, root)) in case.uses.iter().enumerate() {
+        let g = format!("g_b{}", i);
+        let (decl, stmt) = match kind {
+            UseKind::Structured => (format!("const StructuredBuffer<{}> {} : register(t{});", root, g, i), format!("const {} v{} = {}.Load(0);", root, i, g)),
+            UseKind::RwStructured => (format!("const RWStructuredBuffer<{}> {} : register(u{});", root, g, i), format!("{}[1] = {}[0];", g, g)),
+            UseKind::ByteLoad => (format!("const ByteAddressBuffer {} : register(t{});", g, i), format!("const {} v{} = {}.Load<{}>(0);", root, i, g, root)),
+            UseKind::RwByteLoad => (format!("const RWByteAddressBuffer {} : register(u{});", g, i), format!("const {} v{} = {}.Load<{}>(0);", root, i, g, root)),
+            UseKind::RwByteStore => (format!("const RWByteAddressBuffer {} : register(u{});", g, i), format!("{} v{}; {}.Store(0, v{});", root, i, g, i)),
+            UseKind::AddrLoad => (format!("const BufferAddress {} : register(t{});", g, i), format!("const {} v{} = {}.Load<{}>(0);", root, i, g, root)),
+            UseKind::RwAddrLoad => (format!("const RWBufferAddress {} : register(u{});", g, i), format!("const {} v{} = {}.Load<{}>(0);", root, i, g, root)),
+            UseKind::RwAddrStore => (format!("const RWBufferAddress {} : register(u{});", g, i), format!("{} v{}; {}.Store(4, v{});", root, i, g, i)),
+        };
+        text.push_str(&decl);
+        text.push('\n');
+        if matches!(kind, UseKind::Structured | UseKind::RwStructured) {
+            // structured buffer diagnostics point at the global
+            lines.push((line, root.clone()));
+        }
+        line += 1;
+        body.push_str("    ");
+        body.push_str(&stmt);
+        body.push('\n');
+    }
+    text.push_str("void test() {\n");
+    text.push_str(&body);
+    text.push_str("}\n");
+    (text, lines)
+}
+
+fn member_to_json(m: &Member) -> Json {
+    Json::obj()
+        .set("name", &m.name)
+        .set("type", m.base.type_name())
+        .set("dims", Json::Arr(m.dims.iter().map(|d| Json::from(*d)).collect()))
+}
+
+fn decls_to_json(d: &Decls) -> Json {
+    Json::obj().set("enums", Json::Arr(d.enums.iter().map(Json::str).collect())).set(
+        "structs",
+        Json::Arr(
+            d.structs
+                .iter()
+                .map(|s| Json::obj().set("name", &s.name).set("members", Json::Arr(s.members.iter().map(member_to_json).collect())))
+                .collect(),
+        ),
+    )
+}
+
+fn parse_base(t: &str, enums: &[String]) -> Base {
+    if enums.iter().any(|e| e == t) {
+        return Base::Enum(t.to_string());
+    }
+    if let Some(s) = Scalar::from_name(t) {
+        return Base::Num(s, 1);
+    }
+    if let Some(last) = t.chars().last() {
+        if let Some(n) = last.to_digit(10) {
+            if let Some(s) = Scalar::from_name(&t[..t.len() - 1]) {
+                if (2..=4).contains(&n) {
+                    return Base::Num(s, n);
+                }
+            }
+        }
+    }
+    Base::Struct(t.to_string())
+}
+
+fn decls_from_json(j: &Json) -> Decls {
+    let mut d = Decls::default();
+    if let Some(a) = j.get("enums").and_then(|e| e.as_arr()) {
+        d.enums = a.iter().filter_map(|e| e.as_str().map(|s| s.to_string())).collect();
+    }
+    if let Some(a) = j.get("structs").and_then(|e| e.as_arr()) {
+        for s in a {
+            let mut def = StructDef {
+                name: s.get_str("name").unwrap_or("").to_string(),
+                members: Vec::new(),
+            };
+            if let Some(ms) = s.get("members").and_then(|m| m.as_arr()) {
+                for m in ms {
+                    def.members.push(Member {
+                        name: m.get_str("name").unwrap_or("").to_string(),
+                        base: parse_base(m.get_str("type").unwrap_or(""), &d.enums),
+                        dims: m.get("dims").and_then(|x| x.as_arr()).map(|a| a.iter().filter_map(|v| v.as_i64()).map(|v| v as u32).collect()).unwrap_or_default(),
+                    });
+                }
+            }
+            d.structs.push(def);
+        }
+    }
+    d
+}
+
+impl Case {
+    fn to_json(&self) -> Json {
+        Json::obj().set("kind", &self.kind).set("model", decls_to_json(&self.decls)).set(
+            "uses",
+            Json::Arr(self.uses.iter().map(|(k, r)| Json::obj().set("how", k.name()).set("struct", r)).collect()),
+        )
+    }
+    fn from_json(j: &Json) -> Option<Case> {
+        let decls = decls_from_json(j.get("model")?);
+        let mut uses = Vec::new();
+        for u in j.get("uses")?.as_arr()? {
+            uses.push((UseKind::from_name(u.get_str("how")?)?, u.get_str("struct")?.to_string()));
+        }
+        let target = j.get("opts").and_then(|o| o.get_str("target")).map(Tgt::from_name).unwrap_or(Tgt::Dx);
+        Some(Case {
+            kind: j.get_str("kind").unwrap_or("replay").to_string(),
+            decls,
+            uses,
+            target,
+        })
+    }
+}
+
+// ------------------------------------------------------------------------------------------------
+// Generators
+// ------------------------------------------------------------------------------------------------
+
+pub const FLAT_TYPES: u64 = 20;
+/// 20 + 20^2 + 20^3
+pub const FLAT_STRUCTS: u64 = FLAT_TYPES + FLAT_TYPES * FLAT_TYPES + FLAT_TYPES * FLAT_TYPES * FLAT_TYPES;
+
+fn flat_type(k: u64) -> Base {
+    Base::Num(SCALARS[(k / 4) as usize], (k % 4) as u32 + 1)
+}
+
+/// The `index`-th struct of the flat family
+fn flat_struct(index: u64) -> Decls {
+    let (n, mut rest) = if index < FLAT_TYPES {
+        (1, index)
+    } else if index < FLAT_TYPES + FLAT_TYPES * FLAT_TYPES {
+        (2, index - FLAT_TYPES)
+    } else {
+        (3, index - FLAT_TYPES - FLAT_TYPES * FLAT_TYPES)
+    };
+    let mut members = Vec::new();
+    for i in 0..n {
+        members.push(Member {
+            name: format!("m{}", i),
+            base: flat_type(rest % FLAT_TYPES),
+            dims: vec![],
+        });
+        rest /= FLAT_TYPES;
+    }
+    Decls {
+        enums: vec![],
+        structs: vec![StructDef { name: "S".into(), members }],
+    }
+}
+
+fn flat_case(struct_index: u64, use_index: u64) -> Case {
+    Case {
+        kind: "flat".into(),
+        decls: flat_struct(struct_index),
+        uses: vec![(USE_KINDS[(use_index % 8) as usize], "S".into())],
+        target: Tgt::Dx,
+    }
+}
+
+struct Gen<'a> {
+    rng: &'a mut Rng,
+    decls: Decls,
+    /// nesting height of each struct in decls.structs (1 = no nested struct)
+    heights: Vec<u32>,
+    profile: usize,
+}
+
+const PROFILES: usize = 6;
+
+impl Gen<'_> {
+    fn num(&mut self) -> Base {
+        let r = &mut *self.rng;
+        match self.profile {
+            // every scalar type, every width
+            0 => Base::Num(*r.pick(&SCALARS), r.range(1, 4) as u32),
+            // no 3-vectors
+            1 => Base::Num(*r.pick(&SCALARS), *r.pick(&[1, 1, 2, 4])),
+            // 32 bit types, no 3-vectors
+            2 => Base::Num(*r.pick(&[Scalar::Int, Scalar::Uint, Scalar::Float]), *r.pick(&[1, 1, 2, 4])),
+            // scalars only
+            3 => Base::Num(*r.pick(&SCALARS), 1),
+            // 16 and 32 bit, all widths
+            4 => Base::Num(*r.pick(&[Scalar::Half, Scalar::Half, Scalar::Int, Scalar::Uint, Scalar::Float]), r.range(1, 4) as u32),
+            // 32 and 64 bit, scalars and 2-vectors
+            _ => Base::Num(*r.pick(&[Scalar::Float, Scalar::Uint, Scalar::Double]), *r.pick(&[1, 1, 2])),
+        }
+    }
+
+    /// Generate a struct of nesting height <= depth_left + 1 and return its name
+    fn gen_struct(&mut self, root: bool, depth_left: u32) -> String {
+        let n = *self.rng.pick(&[1usize, 2, 2, 3, 3, 3, 4, 4, 5, 6]);
+        let mut members = Vec::new();
+        let mut height = 1;
+        for i in 0..n {
+            let base = if depth_left > 0 && self.rng.chance(1, 4) {
+                let reusable: Vec<usize> = (0..self.decls.structs.len()).filter(|k| self.heights[*k] <= depth_left).collect();
+                let name = if !reusable.is_empty() && self.rng.chance(1, 3) {
+                    let k = *self.rng.pick(&reusable);
+                    height = height.max(self.heights[k] + 1);
+                    self.decls.structs[k].name.clone()
+                } else {
+                    let name = self.gen_struct(false, depth_left - 1);
+                    height = height.max(self.heights[self.decls.structs.len() - 1] + 1);
+                    name
+                };
+                Base::Struct(name)
+            } else if self.rng.chance(1, 12) {
+                if self.decls.enums.is_empty() || (self.decls.enums.len() < 2 && self.rng.chance(1, 3)) {
+                    let name = format!("E{}", self.decls.enums.len());
+                    self.decls.enums.push(name);
+                }
+                Base::Enum(self.rng.pick(&self.decls.enums).clone())
+            } else {
+                self.num()
+            };
+            let mut dims = Vec::new();
+            if self.rng.chance(1, 5) {
+                dims.push(self.rng.range(1, 4) as u32);
+                if self.rng.chance(1, 6) {
+                    dims.push(self.rng.range(1, 4) as u32);
+                }
+            }
+            members.push(Member {
+                name: format!("m{}", i),
+                base,
+                dims,
+            });
+        }
+        let name = if root { "S".to_string() } else { format!("N{}", self.decls.structs.len()) };
+        self.decls.structs.push(StructDef { name: name.clone(), members });
+        self.heights.push(height);
+        name
+    }
+}
+
+fn has_double(d: &Decls) -> bool {
+    d.structs.iter().any(|s| s.members.iter().any(|m| matches!(m.base, Base::Num(Scalar::Double, _))))
+}
+
+const MAX_LEAVES: usize = 1500;
+
+fn random_case(seed: u64, index: u64) -> Case {
+    let mut rng = Rng::for_case(seed, 0x19A, index);
+    let steer = match rng.below(20) {
+        0..=7 => 0,   // unsteered
+        8..=13 => 1,  // want equal layouts
+        14..=16 => 2, // want same size, different offsets
+        _ => 3,       // want different sizes
+    };
+    let profile = rng.below(PROFILES);
+    let depth_left = *rng.pick(&[0u32, 1, 1, 2, 2]);
+    let mut decls = Decls::default();
+    for _attempt in 0..16 {
+        let mut g = Gen {
+            rng: &mut rng,
+            decls: Decls::default(),
+            heights: Vec::new(),
+            profile,
+        };
+        g.gen_struct(true, depth_left);
+        decls = g.decls;
+        let (Some(h), Some(m)) = (layout_of(&decls, "S", Rules::Hlsl, EXACT), layout_of(&decls, "S", Rules::Metal, EXACT)) else { continue };
+        if h.leaves.len() > MAX_LEAVES {
+            continue;
+        }
+        let t = compare(&h, &m);
+        let ok = match steer {
+            0 => true,
+            1 => t == Truth::Equal,
+            2 => matches!(t, Truth::SameSizeOffsetsDiffer(..)),
+            _ => matches!(t, Truth::SizeDiffers(..)),
+        };
+        if ok {
+            break;
+        }
+    }
+    let mut uses = vec![(*rng.pick(&USE_KINDS), "S".to_string())];
+    if rng.chance(3, 20) {
+        let k = rng.below(decls.structs.len());
+        uses.push((*rng.pick(&USE_KINDS), decls.structs[k].name.clone()));
+        if rng.chance(1, 2) {
+            uses.swap(0, 1);
+        }
+    }
+    let mut target = match rng.below(10) {
+        0 => Tgt::Vk,
+        1 => Tgt::VkBa,
+        2 => Tgt::Msl,
+        _ => Tgt::Dx,
+    };
+    if target == Tgt::Msl && has_double(&decls) {
+        target = Tgt::Dx;
+    }
+    Case {
+        kind: format!("random:steer{}:profile{}", steer, profile),
+        decls,
+        uses,
+        target,
+    }
+}
+
+// ------------------------------------------------------------------------------------------------
+// Monitor
+// ------------------------------------------------------------------------------------------------
+
+/// A rejection by the layout validator. Only the message format is taken from rssl
+/// (ir/src/layout_checker.rs): `<file>:<line>:<col>: error: struct has size=X align=A on HLSL but size=Y
+/// align=B on Metal`. Any diagnostic whose message starts with "struct " and names both "on HLSL" and
+/// "on Metal" is read as a layout rejection; the numbers after `size=` are the reported sizes (HLSL
+/// first), those after `align=` the reported alignments.
+struct LayoutDiag {
+    line: u32,
+    sizes: Vec<u32>,
+    aligns: Vec<u32>,
+}
+
+fn numbers_after(msg: &str, key: &str) -> Vec<u32> {
+    let mut out = Vec::new();
+    let mut rest = msg;
+    while let Some(p) = rest.find(key) {
+        rest = &rest[p + key.len()..];
+        let digits: String = rest.chars().take_while(|c| c.is_ascii_digit()).collect();
+        if let Ok(v) = digits.parse::<u32>() {
+            out.push(v);
+        }
+    }
+    out
+}
+
+fn parse_layout_diag(d: &str) -> Option<LayoutDiag> {
+    let first = d.lines().next()?;
+    let pos = first.find("error: struct ")?;
+    let msg = &first[pos + "error: ".len()..];
+    if !msg.contains("on HLSL") || !msg.contains("on Metal") {
+        return None;
+    }
+    // "<file>:<line>:<col>: "
+    let parts: Vec<&str> = first[..pos].split(':').collect();
+    let line = if parts.len() >= 3 { parts[1].trim().parse().unwrap_or(0) } else { 0 };
+    Some(LayoutDiag {
+        line,
+        sizes: numbers_after(msg, "size="),
+        aligns: numbers_after(msg, "align="),
+    })
+}
+
+const RELAX_MEMBER: Relax = Relax {
+    member_tail: true,
+    array_tail: false,
+};
+const RELAX_ARRAY: Relax = Relax {
+    member_tail: false,
+    array_tail: true,
+};
+const RELAX_BOTH: Relax = Relax {
+    member_tail: true,
+    array_tail: true,
+};
+const CAUSES: [(&str, Relax); 3] = [
+    ("nested-struct-tail-padding", RELAX_MEMBER),
+    ("array-stride", RELAX_ARRAY),
+    ("nested-struct-tail-padding+array-stride", RELAX_BOTH),
+];
+
+fn sizes(d: &Decls, root: &str, relax: Relax) -> Option<(u32, u32)> {
+    Some((layout_of(d, root, Rules::Hlsl, relax)?.size, layout_of(d, root, Rules::Metal, relax)?.size))
+}
+
+/// Why could a validator have accepted a struct whose reference layouts differ? Attribution only.
+/// * totals equal, offsets differ: a comparison of total sizes cannot see it;
+/// * totals differ, but become equal when the tail padding of nested structs is forgotten for direct
+///   members / for array elements / for both: that forgotten rule;
+/// * otherwise unexplained.
+fn cause_of_accept(d: &Decls, root: &str, truth: &Truth) -> &'static str {
+    if matches!(truth, Truth::SameSizeOffsetsDiffer(..)) {
+        return "offset-mismatch-same-total-size";
+    }
+    for (name, relax) in CAUSES {
+        if let Some((h, m)) = sizes(d, root, relax) {
+            if h == m {
+                return name;
+            }
+        }
+    }
+    "unexplained"
+}
+
+/// Which forgotten rule (if any) yields exactly the reported sizes? Attribution only.
+fn cause_of_wrong_sizes(d: &Decls, root: &str, reported: (u32, u32)) -> &'static str {
+    for (name, relax) in CAUSES {
+        if sizes(d, root, relax) == Some(reported) {
+            return name;
+        }
+    }
+    "unexplained"
+}
+
+fn lay_to_json(l: &Lay) -> Json {
+    let mut offsets = Vec::new();
+    for (p, o, _) in l.leaves.iter().take(48) {
+        offsets.push(Json::Arr(vec![Json::str(p), Json::from(*o)]));
+    }
+    let mut j = Json::obj().set("size", l.size).set("align", l.align).set("offsets", Json::Arr(offsets));
+    if l.leaves.len() > 48 {
+        j.put("offsets_truncated_of", l.leaves.len());
+    }
+    j
+}
+
+struct RootRef {
+    name: String,
+    hlsl: Lay,
+    metal: Lay,
+    truth: Truth,
+}
+
+fn features(case: &Case, report: &mut Report) {
+    for s in &case.decls.structs {
+        report.count(&format!("members:{}", s.members.len()));
+        for m in &s.members {
+            match &m.base {
+                Base::Num(sc, n) => report.count(&format!("member-type:{}{}", sc.name(), if *n == 1 { String::new() } else { n.to_string() })),
+                Base::Enum(_) => report.count("member-type:enum"),
+                Base::Struct(_) => report.count("member-type:struct"),
+            }
+            if !m.dims.is_empty() {
+                report.count(&format!(
+                    "array:{}d-of-{}",
+                    m.dims.len(),
+                    match &m.base {
+                        Base::Num(_, 1) => "scalar",
+                        Base::Num(..) => "vector",
+                        Base::Enum(_) => "enum",
+                        Base::Struct(_) => "struct",
+                    }
+                ));
+            }
+        }
+    }
+    report.count(&format!("structs-per-program:{}", case.decls.structs.len()));
+}
+
+/// Does the Metal backend emit the struct members with the types the reference lays out?
+/// Compares the member lines of the emitted `struct X { ... };` blocks with the model.
+fn check_emitted_msl(case: &Case, text: &str, report: &mut Report) {
+    let mut opts = Opts::new(Tgt::Msl, Mode::NoPipeline);
+    opts.validate_layout = false;
+    let out = rs::compile_text(text, &opts);
+    report.evaluations += 1;
+    let Outcome::Ok(pipes) = &out else {
+        report.count(&format!("msl-emission:skipped:{}", out.class()));
+        return;
+    };
+    let Some(p) = pipes.first() else { return };
+    let src = &p.source;
+    if src.contains("packed_") {
+        report.count("msl-emission:packed-type-seen");
+        report.inconclusive("the Metal backend emitted a packed_* type in a program of this workload: the reference lays out plain vector types");
+        return;
+    }
+    for s in &case.decls.structs {
+        let header = format!("struct {}\n{{\n", s.name);
+        let Some(pos) = src.find(&header) else {
+            report.count("msl-emission:struct-not-found");
+            report.inconclusive(&format!("emitted MSL has no definition of struct {} in the expected form", s.name));
+            return;
+        };
+        let body = &src[pos + header.len()..];
+        let body = &body[..body.find("};").unwrap_or(body.len())];
+        let emitted: Vec<String> = body.lines().map(|l| l.trim().to_string()).filter(|l| !l.is_empty()).collect();
+        let expected: Vec<String> = s
+            .members
+            .iter()
+            .map(|m| {
+                let mut t = format!("{} {}", m.base.type_name(), m.name);
+                for d in &m.dims {
+                    t.push_str(&format!("[{}]", d));
+                }
+                t.push(';');
+                t
+            })
+            .collect();
+        if emitted != expected {
+            report.count("msl-emission:members-differ");
+            report.inconclusive(&format!(
+                "the Metal backend emits struct {} with members {:?}, the reference lays out {:?}",
+                s.name, emitted, expected
+            ));
+            return;
+        }
+    }
+    report.count("msl-emission:members-as-in-source");
+}
+
+fn examine(case: &Case, stored_text: Option<&str>, index: Option<u64>, report: &mut Report) {
+    let (rendered, lines) = render(case);
+    let (text, lines_valid) = match stored_text {
+        Some(t) if t != rendered => (t.to_string(), false),
+        _ => (rendered, true),
+    };
+
+    // ---- reference ---------------------------------------------------------------------------
+    let mut roots: Vec<RootRef> = Vec::new();
+    for (_, root) in &case.uses {
+        if roots.iter().any(|r| &r.name == root) {
+            continue;
+        }
+        let (Some(h), Some(m)) = (layout_of(&case.decls, root, Rules::Hlsl, EXACT), layout_of(&case.decls, root, Rules::Metal, EXACT)) else {
+            report.count("skipped:outside-reference");
+            return;
+        };
+        let truth = compare(&h, &m);
+        roots.push(RootRef {
+            name: root.clone(),
+            hlsl: h,
+            metal: m,
+            truth,
+        });
+    }
+
+    // ---- the real validator ------------------------------------------------------------------
+    let mut opts = Opts::new(case.target, Mode::NoPipeline);
+    opts.validate_layout = true;
+    let out = rs::compile_text(&text, &opts);
+    report.evaluations += 1;
+
+    let witness = |extra: Json| -> Json {
+        let mut w = case.to_json().set("text", &text).set("opts", opts.to_json());
+        if let Some(i) = index {
+            w.put("index", i);
+        }
+        w.put(
+            "reference",
+            Json::Arr(
+                roots
+                    .iter()
+                    .map(|r| {
+                        Json::obj()
+                            .set("struct", &r.name)
+                            .set("relation", r.truth.name())
+                            .set("hlsl", lay_to_json(&r.hlsl))
+                            .set("metal", lay_to_json(&r.metal))
+                    })
+                    .collect(),
+            ),
+        );
+        w.put("observed", extra);
+        w
+    };
+
+    let mut verdict_reached = false;
+    match &out {
+        Outcome::Ok(_) => {
+            verdict_reached = true;
+            report.count("verdict:accepted");
+            match roots.iter().find(|r| r.truth != Truth::Equal) {
+                None => report.count("ok:accepted-and-reference-layouts-equal"),
+                Some(r) => {
+                    let cause = cause_of_accept(&case.decls, &r.name, &r.truth);
+                    let (path, ho, mo) = match &r.truth {
+                        Truth::SameSizeOffsetsDiffer(p, a, b) => (p.clone(), *a, *b),
+                        Truth::SizeDiffers(Some((p, a, b))) => (p.clone(), *a, *b),
+                        _ => (String::new(), 0, 0),
+                    };
+                    let what = if path.is_empty() {
+                        format!("size {} on HLSL but {} on Metal (all offsets equal)", r.hlsl.size, r.metal.size)
+                    } else {
+                        format!(
+                            "size {} on HLSL / {} on Metal, field {}{} at offset {} on HLSL but {} on Metal",
+                            r.hlsl.size, r.metal.size, r.name, path, ho, mo
+                        )
+                    };
+                    report.violation(
+                        &format!("accepted-inconsistent-layout:{}", cause),
+                        &format!("validation accepted struct {} used as {}: {}", r.name, use_of(case, &r.name), what),
+                        witness(Json::obj().set("verdict", "accepted").set("cause", cause).set("first_difference", what.clone())),
+                    );
+                }
+            }
+        }
+        Outcome::Diag(d) => {
+            if let Some(diag) = parse_layout_diag(d) {
+                verdict_reached = true;
+                report.count("verdict:rejected");
+                let line = diag.line;
+                // which struct is the message about?
+                let by_line = if lines_valid { lines.iter().find(|(l, _)| *l == line).and_then(|(_, n)| roots.iter().find(|r| &r.name == n)) } else { None };
+                if diag.sizes.len() != 2 {
+                    // a rejection that reports no sizes: the property only speaks about reported sizes
+                    report.count("rejected:no-sizes-reported");
+                    let r = by_line.or(roots.iter().find(|r| r.truth != Truth::Equal)).or(roots.first());
+                    match r {
+                        Some(r) if r.truth != Truth::Equal => report.count("ok:rejected-without-sizes-and-reference-layouts-differ"),
+                        _ => report.count("observed:rejected-without-sizes-although-reference-layouts-equal"),
+                    }
+                    finish(case, &roots, &text, &out, &witness, report);
+                    return;
+                }
+                let (hs, ms) = (diag.sizes[0], diag.sizes[1]);
+                let (ha, ma) = (diag.aligns.first().copied().unwrap_or(0), diag.aligns.get(1).copied().unwrap_or(0));
+                let target_root = match by_line {
+                    Some(r) => {
+                        report.count("rejected:struct-identified-by-line");
+                        Some(r)
+                    }
+                    None => {
+                        report.count("rejected:struct-not-identified-by-line");
+                        // any used struct whose true sizes are the reported ones explains the message
+                        roots.iter().find(|r| (r.hlsl.size, r.metal.size) == (hs, ms)).or(roots.first())
+                    }
+                };
+                let Some(r) = target_root else { return };
+                if (r.hlsl.size, r.metal.size) == (hs, ms) {
+                    // reported sizes are true and differ (the checker only reports different sizes)
+                    report.count("ok:rejected-with-true-sizes");
+                    if (r.hlsl.align, r.metal.align) != (ha, ma) {
+                        report.count("observed:reported-align-differs-from-reference");
+                    }
+                    if hs == ms {
+                        // cannot happen with the documented message, but would be an unsound rejection text
+                        report.count("observed:rejected-with-equal-sizes");
+                    }
+                } else {
+                    let cause = cause_of_wrong_sizes(&case.decls, &r.name, (hs, ms));
+                    report.count(&format!("wrong-reported-size:reference-relation:{}", r.truth.name()));
+                    report.violation(
+                        &format!("wrong-reported-size:{}", cause),
+                        &format!(
+                            "validation rejected struct {} used as {} reporting size={} on HLSL and size={} on Metal; the sizes are {} and {}",
+                            r.name,
+                            use_of(case, &r.name),
+                            hs,
+                            ms,
+                            r.hlsl.size,
+                            r.metal.size
+                        ),
+                        witness(
+                            Json::obj()
+                                .set("verdict", "rejected")
+                                .set("cause", cause)
+                                .set("message", d.lines().next().unwrap_or(""))
+                                .set("reported", Json::obj().set("hlsl_size", hs).set("hlsl_align", ha).set("metal_size", ms).set("metal_align", ma)),
+                        ),
+                    );
+                }
+            } else if d.contains("struct has unknown size") {
+                report.count("skipped:validator-says-unknown-size");
+            } else {
+                report.count("skipped:other-diagnostic");
+                let first = d.lines().next().unwrap_or("").to_string();
+                let msg = first.splitn(4, ':').last().unwrap_or("").trim().to_string();
+                report.count(&format!("skipped:other-diagnostic:{}:{}", case.target.name(), msg.chars().take(60).collect::<String>()));
+            }
+        }
+        Outcome::Panic(c) => {
+            // totality is C08's property
+            report.count("skipped:panic");
+            report.count(&format!("skipped:panic:{}", c.signature()));
+        }
+        Outcome::Budget { .. } => report.count("skipped:step-budget"),
+    }
+
+    if verdict_reached {
+        finish(case, &roots, &text, &out, &witness, report);
+    }
+}
+
+/// Coverage bookkeeping of a case for which the validator gave a verdict
+fn finish(case: &Case, roots: &[RootRef], text: &str, out: &Outcome, witness: &dyn Fn(Json) -> Json, report: &mut Report) {
+    let mut key = String::new();
+    for s in &case.decls.structs {
+        key.push_str(&format!("{:?}", s));
+    }
+    key.push_str(&format!("{:?}", case.uses));
+    report.distinct(hash_str(&key));
+    features(case, report);
+    report.count(&format!("target:{}", case.target.name()));
+    for (k, _) in &case.uses {
+        report.count(&format!("use:{}", k.name()));
+    }
+    for r in roots {
+        report.count(&format!("reference:{}", r.truth.name()));
+        report.max("max:leaf-fields", r.hlsl.leaves.len() as u64);
+        report.max("max:struct-size-metal", r.metal.size as u64);
+    }
+    report.count(&format!("family:{}", case.kind.split(':').next().unwrap_or("")));
+    if report.want_sample() && (case.kind != "flat" || report.samples.is_empty()) {
+        report.sample(witness(Json::obj().set("verdict", out.brief())));
+    }
+    // 1 in 8: is the emitted Metal struct what the reference lays out?
+    if !has_double(&case.decls) && hash_str(text) % 8 == 0 {
+        check_emitted_msl(case, text, report);
+    }
+}
+
+fn use_of(case: &Case, root: &str) -> String {
+    case.uses.iter().filter(|(_, r)| r == root).map(|(k, _)| k.name().replace("<S>", &format!("<{}>", root)).replace("(S)", &format!("({})", root))).collect::<Vec<_>>().join(" and ")
+}
+
+// ------------------------------------------------------------------------------------------------
+// Run / replay
+// ------------------------------------------------------------------------------------------------
+
+/// Self test of the reference (not part of the verdict): `C19_EMIT_CXX=<file> [C19_EMIT_N=<n>]` writes
+/// the first n random cases as C++ with one static_assert per reference size / leaf offset, the
+/// Metal rules against clang's ext_vector_type vectors (what Metal's vector types are) and the HLSL
+/// rules against plain C structs whose vectors are scalar arrays. `clang++ -fsyntax-only <file>`
+/// (`--target=aarch64-linux-gnu` where the host has no _Float16) must pass. (Done while building the check: 3000 cases, 57 000 assertions, 0 failures;
+/// Metal-side structs with double3/double4, which do not exist in Metal, are left out.)
+fn emit_cxx(seed: u64, path: &str) {
+    let n: u64 = std::env::var("C19_EMIT_N").ok().and_then(|v| v.parse().ok()).unwrap_or(1000);
+    let mut out = String::from("#define offsetof __builtin_offsetof\ntypedef _Float16 half; typedef unsigned int uint;\n");
+    for sc in SCALARS {
+        for w in 2..=4 {
+            out.push_str(&format!("typedef {} {}{} __attribute__((ext_vector_type({})));\n", sc.name(), sc.name(), w, w));
+        }
+    }
+    for i in 0..n {
+        let case = random_case(seed, i);
+        for rules in [Rules::Metal, Rules::Hlsl] {
+            let Some(l) = layout_of(&case.decls, "S", rules, EXACT) else { continue };
+            // Metal has no double; clang caps the alignment of 32 byte vectors at 16, the reference follows the power-of-two rule
+            let wide_double = case.decls.structs.iter().any(|s| s.members.iter().any(|m| matches!(m.base, Base::Num(Scalar::Double, w) if w >= 3)));
+            if rules == Rules::Metal && wide_double {
+                continue;
+            }
+            out.push_str(&format!("namespace {}{} {{\n", if rules == Rules::Metal { "m" } else { "h" }, i));
+            for e in &case.decls.enums {
+                out.push_str(&format!("enum {} {{ {}_A, {}_B }};\n", e, e, e));
+            }
+            for s in &case.decls.structs {
+                out.push_str(&format!("struct {} {{", s.name));
+                for m in &s.members {
+                    let mut dims: String = m.dims.iter().map(|d| format!("[{}]", d)).collect();
+                    let ty = match (&m.base, rules) {
+                        (Base::Num(sc, w), Rules::Hlsl) if *w > 1 => {
+                            dims.push_str(&format!("[{}]", w));
+                            sc.name().to_string()
+                        }
+                        (b, _) => b.type_name(),
+                    };
+                    out.push_str(&format!(" {} {}{};", ty, m.name, dims));
+                }
+                out.push_str(" };\n");
+            }
+            out.push_str(&format!("static_assert(sizeof(S) == {} && alignof(S) == {}, \"size\");\n", l.size, l.align));
+            for (p, o, _) in &l.leaves {
+                let tail = if rules == Rules::Hlsl && leaf_is_vector(&case.decls, "S", p) { "[0]" } else { "" };
+                out.push_str(&format!("static_assert(offsetof(S, {}{}) == {}, \"offset\");\n", &p[1..], tail, o));
+            }
+            out.push_str("}\n");
+        }
+    }
+    let _ = std::fs::write(path, out);
+}
+
+/// Is the leaf at `path` (".m0[1].m2") of struct `root` a vector?
+fn leaf_is_vector(d: &Decls, root: &str, path: &str) -> bool {
+    let mut cur = root.to_string();
+    let mut last = None;
+    for part in path.split('.').filter(|p| !p.is_empty()) {
+        let name = part.split('[').next().unwrap_or(part);
+        let Some(m) = d.find(&cur).and_then(|s| s.members.iter().find(|m| m.name == name)) else { return false };
+        last = Some(m.base.clone());
+        if let Base::Struct(n) = &m.base {
+            cur = n.clone();
+        }
+    }
+    matches!(last, Some(Base::Num(_, w)) if w > 1)
+}
+
+fn run(ctx: &Ctx) -> Report {
+    if let Ok(path) = std::env::var("C19_EMIT_CXX") {
+        emit_cxx(ctx.seed, &path);
+    }
+    let thorough = ctx.tier == Tier::Thorough;
+    // flat family
+    let slice = ctx.seed % 10;
+    let flat_cases: u64 = if thorough { FLAT_STRUCTS * 8 } else { (0..FLAT_STRUCTS).filter(|i| i % 10 == slice).count() as u64 };
+    let random_cases: u64 = ctx.tier.pick(60_000, 1_000_000);
+    let seed = ctx.seed;
+    let mut report = crate::par::run_cases(ctx, flat_cases + random_cases, |index, report| {
+        if index < flat_cases {
+            let case = if thorough {
+                flat_case(index / 8, index % 8)
+            } else {
+                // the index-th struct of the slice
+                let si = index * 10 + slice;
+                flat_case(si, si / 10 + seed)
+            };
+            examine(&case, None, Some(index), report);
+        } else {
+            let i = index - flat_cases;
+            let case = random_case(seed, i);
+            examine(&case, None, Some(i), report);
+        }
+    });
+    let run = report.counters.get("cases_run").copied().unwrap_or(0);
+    if thorough && run >= flat_cases {
+        // indices are handed out in order, so the flat family was enumerated completely
+        report.exhaustive = Some(true);
+        report.notes.push(format!("flat family enumerated completely: {} structs x 8 uses", FLAT_STRUCTS));
+    }
+    report
+}
+
+fn replay(_ctx: &Ctx, witness: &Json) -> Report {
+    let mut report = Report::new();
+    let Some(case) = Case::from_json(witness) else {
+        report.inconclusive("witness has no model / uses");
+        return report;
+    };
+    examine(&case, witness.get_str("text"), None, &mut report);
+    report
+}
